@@ -52,10 +52,12 @@ type fakeProc struct {
 	outClosed   bool
 	outNotify   chan struct{}
 	emitLog     []byte
+	faultBytes  bool           // some scripted fault wrote bytes to stdout
+	clean       map[string]int // answers emitted while the output stream was still well-formed
 }
 
 func newFakeProc(x *gate.Exec, script fakeScript) *fakeProc {
-	fp := &fakeProc{x: x, script: script, emitted: map[string]int{}, done: make(chan struct{}), outNotify: make(chan struct{})}
+	fp := &fakeProc{x: x, script: script, emitted: map[string]int{}, clean: map[string]int{}, done: make(chan struct{}), outNotify: make(chan struct{})}
 	return fp
 }
 
@@ -162,6 +164,15 @@ func (fp *fakeProc) emittedAnswers() map[string]int {
 	}
 	return out
 }
+func (fp *fakeProc) cleanAnswers() map[string]int {
+	fp.mu.Lock()
+	defer fp.mu.Unlock()
+	out := map[string]int{}
+	for k, v := range fp.clean {
+		out[k] = v
+	}
+	return out
+}
 func (fp *fakeProc) receivedNames() []string {
 	fp.mu.Lock()
 	defer fp.mu.Unlock()
@@ -200,6 +211,10 @@ func (fp *fakeProc) doFault() {
 		return
 	}
 	fp.faultDone = true
+	switch fp.script.Fault {
+	case "cut", "dup", "unknown", "oversize", "garbage":
+		fp.faultBytes = true
+	}
 	var exitWith error
 	doExit := false
 	switch fp.script.Fault {
@@ -311,6 +326,9 @@ func (s *fakeStdin) Write(p []byte) (int, error) {
 			b := frame(resp)
 			fp.lastAnswer = b
 			fp.emitted[req.TestName]++
+			if !fp.faultBytes {
+				fp.clean[req.TestName]++
+			}
 			fp.emittedN++
 			fp.emitLocked(b)
 		})
